@@ -16,7 +16,7 @@ C05 = ("C05",)
 R("09b85350de", "config", "Prefix4::new asserts prefixlen <= 32; every caller passes the length of a configured prefix or of an interface "
   "address, never a packet field", count=2, props=C05)
 R("e89c8b29b6", "internal", "the arm is entered only when network() has the ::ffff:0:0/96 pattern, and network() masks the address with the "
-  "prefix length, so the pattern can only survive when prefixlen >= 96", requires=("C08.R6",))
+  "prefix length, so the pattern can only survive when prefixlen >= 96", requires=("C08.R6", "S2"))
 R("b7c00e393d", "config", "network + offset with offset < 2^(32-prefixlen): stays inside the configured subnet", props=C05)
 R("7f379f249b", "config", "Ipv4Subnet::netmask shifts by the prefix length of a configured or interface subnet", props=C05)
 R("1a5ec36410", "config", "dest[0] of a forward route: the server list comes from the configuration", props=C05)
@@ -117,7 +117,7 @@ R("b928934e4f", "internal", "a node is a pointer target only when its offset is 
 R("e5863a07a6", "internal", "node offsets are >= 12: every name is written after the header", requires=("C14.R4", "C04.R2"))
 R("54ce5f3c46", "internal", "0xc0 + (offset >> 8) with offset < 0x4000", count=2, requires=("C14.R3",))
 R("cc0b823c76", "internal", "character-strings come from get_string, whose length is one octet")
-R("6271723e32", "internal", "the client cookie is the first 8 octets returned by get_cookie")
+R("6271723e32", "internal", "the client cookie is the first 8 octets returned by get_cookie", requires=("S3",))
 R("f966cff6de", "internal", "the server cookie is the 32-octet HMAC output")
 R("d28506018c", "internal", "the RDATA variant is chosen from the record type by the decoder, so the type asserted for a variant is the type "
   "that selected it", count=3, requires=("C14.R1",))
